@@ -17,6 +17,7 @@ type histOpts struct {
 	stray                  bool // COPY messages outside COPY mode
 	decorated              bool // fully decorated errors (C02) instead of plain ones
 	rich                   bool // date/time column types too
+	docs                   bool // with rich: name, bpchar, json and jsonb columns filled from Go strings
 	binary                 bool // binary result formats
 	params                 bool // statements with declared parameters, Bind values
 	typedNull              bool // NULL written as typed nil pointers / invalid pgtype values
@@ -52,6 +53,9 @@ type histGen struct {
 }
 
 func (g *histGen) oids() []uint32 {
+	if g.o.rich && g.o.docs {
+		return docOIDs
+	}
 	if g.o.rich {
 		return richOIDs
 	}
@@ -808,6 +812,11 @@ func (g *histGen) unit() {
 	}
 	if g.o.unknown {
 		cs = append(cs, choice{1, func() {
+			if g.o.extended && r.Chance(1, 3) {
+				// Describe / Close with a kind byte the protocol does not define
+				g.add(oddTarget(r), pgwire.FMsg{K: "S"})
+				return
+			}
 			g.add(pgwire.FMsg{K: "typed", T: byte(r.Pick("z", "p", "F", "y", "0")[0]), Data: r.Bytes(r.Intn(6))})
 		}})
 	}
